@@ -11,6 +11,7 @@ CONSTANTS
   SkipLock = "READ2"
   TxNoLock = FALSE
   WalGuard = TRUE
+  WalOwnerTest = FALSE
   Exclude = {"DmsW", "RecovW", "RecovU"}
   Gated = FALSE
   EmitEdges = FALSE
